@@ -6,9 +6,10 @@
    Modelling decisions (tied to the code by the correspondence run only):
    * tags (map[string]bool) is a function bytes -> bool (a missing key is false).
    * Tag characters: the Go code accepts unicode.IsLetter / unicode.IsDigit runes, '_'
-     and '.'.  The model is ASCII ONLY: a byte >= 0x80 inside a term makes the term
-     malformed.  (Invalid UTF-8 is malformed in Go too; the difference is confined to
-     terms containing a non-ASCII Unicode letter or digit.)
+     and '.'.  The model knows the ASCII letters and digits by range and those of
+     U+0080..U+024F through the generated table [extra_tag_runes]; any other byte >= 0x80
+     makes the term malformed.  (Invalid UTF-8 is malformed in Go too; the difference is
+     confined to terms containing a letter or digit at or above U+0250.)
    * ShouldBuild's first pass keeps a byte offset [end]; because [end] always sits at a
      line boundary the model keeps the list of lines before [end] instead.
    * f[0] of strings.Fields is an index expression: the model answers [None] (panic)
@@ -82,8 +83,33 @@ Definition in_rng (lo hi : byte) (b : byte) : bool :=
 Definition tag_char (b : byte) : bool :=
   in_rng x41 x5a b || in_rng x61 x7a b || in_rng x30 x39 b || beq b x5f || beq b x2e.
 
+(* the letters and digits beyond ASCII that the model knows: the generated table
+   [extra_tag_runes] (U+0080..U+024F, from the toolchain's unicode tables) *)
+Definition extra_rune_len (d : bytes) : nat :=
+  match find (fun e => has_prefix e d) extra_tag_runes with
+  | Some e => length e
+  | None => 0
+  end.
+(* `for _, c := range name { if !IsLetter(c) && !IsDigit(c) && c != '_' && c != '.' { return false } }`
+   for names whose runes are below U+0250; [skip] = bytes of the current rune still to pass *)
+Fixpoint tag_chars_go (d : bytes) (skip : nat) : bool :=
+  match d with
+  | [] => true
+  | b :: r =>
+      match skip with
+      | S k => tag_chars_go r k
+      | 0 =>
+          if N.ltb (bN b) 128 then tag_char b && tag_chars_go r 0
+          else match extra_rune_len d with
+               | 0 => false
+               | S n => tag_chars_go r n
+               end
+      end
+  end.
+Definition tag_chars (name : bytes) : bool := tag_chars_go name 0.
+
 Definition match_tag (name : bytes) (tags : tagset) (want : bool) : bool :=
-  if negb (forallb tag_char name) then false
+  if negb (tag_chars name) then false
   else if tags star && negb (is_nil name) && negb (bytes_eqb name ignore) then true
   else
     let have := tags name in
@@ -231,8 +257,8 @@ Definition build_options (l : bytes) : option (list bytes) :=
     end
   else None.
 
-(* a tag is a non-empty word of letters, digits, '_' and '.' (ASCII) *)
-Definition wf_tag (t : bytes) : bool := negb (is_nil t) && forallb tag_char t.
+(* a tag is a non-empty word of letters, digits, '_' and '.' *)
+Definition wf_tag (t : bytes) : bool := negb (is_nil t) && tag_chars t.
 (* selected by the tag set; android also selects linux *)
 Definition selects (tags : tagset) (t : bytes) : bool :=
   tags t || (bytes_eqb t linux && tags android).
